@@ -25,11 +25,12 @@ class CI:
 
     def __init__(self, cls, case_name, case):
         self.cls, self.case_name, self.case = cls, case_name, case
-        self.fn = cls.fn
+        # a contract class may serve several functions of the same shape: the case then names its function
+        self.fn = (case.get("fn") if isinstance(case, dict) else None) or cls.fn
         self.props = tuple(getattr(cls, "props", ()))
         self.raises = tuple(getattr(cls, "raises", ()))
         self.modular = bool(getattr(cls, "modular", False))
-        self.name = "%s[%s]" % (cls.fn, case_name)
+        self.name = "%s[%s]" % (self.fn, case_name)
         self.module = cls.__module__
         self.clsname = cls.__name__
 
